@@ -104,6 +104,9 @@ CANARIES = {
         ("millisecond-two-digits", "stix2/utils.py", "int-1", ["format_datetime", "3 -> 2", ":3"], "C15.branch-table"),
         ("utc-branches-swapped", "stix2/utils.py", "negate-if", ["format_datetime", "tzinfo is None"], "C15.utc"),
         ("millisecond-truncation-off", "stix2/utils.py", "int+1", ["parse_into_datetime", "1000 -> 1001"], "C15.truncate"),
+        ("naive-stays-naive", "stix2/utils.py", "text", ["            if ts.tzinfo is None or ts.tzinfo.utcoffset(ts) is None:\n", "            if False:\n"], "C15.value-object"),
+        ("fold-dropped", "stix2/utils.py", "text", ['            kwargs.setdefault("fold", dttm.fold)\n', ""], "C15.value-object"),
+        ("copy-loses-precision", "stix2/utils.py", "text", ["    def __reduce_ex__(self, protocol):", "    def _unused_reduce(self, protocol):"], "C15.value-object"),
     ],
     "C16": [
         ("window-off-by-one", "stix2/canonicalization/NumberToJson.py", "int+1", ["21 -> 22"], "C16.number-constants"),
